@@ -22,8 +22,8 @@ func (w *rrWorld) applyCoarse(op *rrOp, where string) {
 	r := w.r
 	switch op.kind {
 	case "upsert":
-		if op.err {
-			r.Fail("upsert-failed", "%s: UpsertServer(%s) returned an error", where, op.key)
+		if op.err != (op.hasW && op.w < 0) {
+			r.Fail("upsert-result", "%s: UpsertServer(%s, weight %d given=%v) returned error=%v", where, op.key, op.w, op.hasW, op.err)
 		}
 	case "remove":
 	case "next", "serve":
@@ -76,7 +76,7 @@ func c02prop(r *simkit.Run) *rrWorld {
 	removed := map[string]bool{}
 
 	startOp := func() *rrOp {
-		kinds := []string{"upsert", "upsert", "upsert-w", "upsert-w", "remove", "remove", "next", "next", "serve", "serve", "serve-mut", "servers", "weight"}
+		kinds := []string{"upsert", "upsert", "upsert-w", "upsert-w", "upsert-bad", "remove", "remove", "next", "next", "serve", "serve", "serve-mut", "servers", "weight"}
 		if sticky {
 			kinds = append(kinds, "serve-sticky", "serve-sticky", "serve-sticky-mut")
 		}
@@ -96,6 +96,9 @@ func c02prop(r *simkit.Run) *rrWorld {
 				wt = 1 // in fine mode "is it new?" depends on the interleaving; keep the op unambiguous
 			}
 			return w.opUpsert(u, true, wt)
+		case "upsert-bad":
+			// an update the balancer must refuse (negative weight): it has to fail and change nothing
+			return w.opUpsert(mustURL(pick()), true, -rapid.IntRange(1, 3).Draw(rt, "neg-weight"))
 		case "remove":
 			return w.opRemove(mustURL(pick()))
 		case "next":
@@ -307,6 +310,9 @@ func (w *rrWorld) checkHistory() {
 			}
 			switch in.kind {
 			case "upsert":
+				if in.hasW && in.w < 0 {
+					return out.err, state // refused, nothing changes
+				}
 				if out.err {
 					return false, state
 				}
